@@ -25,6 +25,7 @@ class TaskScenario(ScenarioData):
         self.doneEffort: float = 0.0
         self.slotStartOffset: float = 0.0
         self._selectedResources: Optional[list[Any]] = None
+        self._endOffset: float = 0.0
         self._lastBookedResource: Optional[Any] = None
         self._lastBookedSlot: Optional[int] = None
 
@@ -90,6 +91,7 @@ class TaskScenario(ScenarioData):
         self.doneEffort = 0.0
         self.scheduled = False
         self._selectedResources = None  # Reset alternative resource selection
+        self._endOffset = 0.0
 
         # Track exact start time within a slot (for mid-slot dependency starts)
         # This is the number of seconds into the slot where we should start booking
@@ -657,6 +659,10 @@ class TaskScenario(ScenarioData):
             # Use first_booked_slot if we actually booked something, else fall back to start_slot_idx
             end_slot = first_booked_slot if first_booked_slot is not None else start_slot_idx
             actual_end = self.project.idxToDate(end_slot + 1)
+            if first_booked_slot is not None and self._endOffset > 0:
+                from datetime import timedelta
+
+                actual_end = actual_end - timedelta(seconds=round(self._endOffset))
             # For effort-based tasks, always use the calculated end (when work actually completes)
             # even if an explicit end constraint was specified (that's just the deadline, not the actual end)
             effort = self.property.get("effort", self.scenarioIdx) or 0
@@ -818,12 +824,25 @@ class TaskScenario(ScenarioData):
         else:
             seconds_into_slot = slot_duration_seconds
 
-        # Clamp to slot duration (shouldn't exceed, but safety check)
-        seconds_into_slot = min(seconds_into_slot, slot_duration_seconds)
+        # This task only got the part of the slot that was still free when it was
+        # booked. Find out how much that was and how much of the slot was already
+        # taken (by other tasks or by the intra-slot start offset) before it.
+        booked_seconds: float = slot_duration_seconds
+        res_scenario = None
+        if resource:
+            res_scenario = resource.data[self.scenarioIdx] if resource.data else None
+        if res_scenario:
+            for task, secs in res_scenario.slotTaskUsage.get(self.currentSlotIdx, []):
+                if task == self.property:
+                    booked_seconds = secs
+        seconds_before = max(0.0, slot_duration_seconds - booked_seconds)
+
+        # Clamp to what was booked (shouldn't exceed, but safety check)
+        seconds_into_slot = min(seconds_into_slot, booked_seconds)
 
         # Calculate the precise end time, rounded to nearest second
         # (Gold standard uses second-level precision)
-        seconds_rounded = round(seconds_into_slot)
+        seconds_rounded = round(seconds_before + seconds_into_slot)
 
         if forward:
             # For forward scheduling, end time is offset from slot start
@@ -843,25 +862,26 @@ class TaskScenario(ScenarioData):
                 precise_end = self.project["start"]
 
         # Release unused portion of the slot back to the resource
-        seconds_unused = slot_duration_seconds - seconds_into_slot
+        seconds_unused = booked_seconds - seconds_into_slot
         if seconds_unused > 0 and resource:
-            res_scenario = resource.data[self.scenarioIdx] if resource.data else None
-            if res_scenario:
+            for member in [resource]:
+                res_scenario = member.data[self.scenarioIdx] if member.data else None
+                if not res_scenario:
+                    continue
                 # Update the per-task usage record to reflect actual usage
-                if self.currentSlotIdx in res_scenario.slotTaskUsage:
-                    # Find and update this task's entry
-                    for i, (task, _secs) in enumerate(res_scenario.slotTaskUsage[self.currentSlotIdx]):
-                        if task == self.property:
-                            res_scenario.slotTaskUsage[self.currentSlotIdx][i] = (task, seconds_into_slot)
-                            break
+                released = 0.0
+                usage = res_scenario.slotTaskUsage.get(self.currentSlotIdx, [])
+                for i, (task, secs) in enumerate(usage):
+                    if task == self.property:
+                        new_secs = min(secs, seconds_into_slot)
+                        released = secs - new_secs
+                        usage[i] = (task, new_secs)
+                        break
 
-                # Update total slotSecondsUsed to release unused time
-                # Old value was full slot duration, new value is actual usage
-                old_total = res_scenario.slotSecondsUsed.get(self.currentSlotIdx, slot_duration_seconds)
-                # Subtract what was previously booked (full slot) and add actual usage
-                res_scenario.slotSecondsUsed[self.currentSlotIdx] = (
-                    old_total - slot_duration_seconds + seconds_into_slot
-                )
+                # Give back exactly what this task no longer needs
+                if released > 0:
+                    old_total = res_scenario.slotSecondsUsed.get(self.currentSlotIdx, slot_duration_seconds)
+                    res_scenario.slotSecondsUsed[self.currentSlotIdx] = max(0.0, old_total - released)
 
         return precise_end, seconds_into_slot
 
@@ -1329,9 +1349,32 @@ class TaskScenario(ScenarioData):
 
                     slot_idx = self.currentSlotIdx if self.currentSlotIdx is not None else 0
                     start_date = self.project.idxToDate(slot_idx)
-                    if start_date is not None and hasattr(self, "slotStartOffset") and self.slotStartOffset > 0:
-                        start_date = start_date + timedelta(seconds=self.slotStartOffset)
+                    # The task begins where the free part of the slot begins: after the
+                    # mid-slot offset from its dependency and after whatever another task
+                    # already used of this slot.
+                    offset = self.slotStartOffset if hasattr(self, "slotStartOffset") else 0.0
+                    booked = self._lastBookedResource
+                    res_scenario = booked.data[self.scenarioIdx] if booked is not None and booked.data else None
+                    if res_scenario:
+                        granularity = self.project.attributes.get("scheduleGranularity", 3600)
+                        for task, secs in res_scenario.slotTaskUsage.get(slot_idx, []):
+                            if task == self.property:
+                                offset = max(offset, granularity - secs)
+                    if start_date is not None and offset > 0:
+                        start_date = start_date + timedelta(seconds=round(offset))
                     self.property[("start", self.scenarioIdx)] = start_date
+                else:
+                    # Backward mode fills a slot from its end: if a later task already
+                    # took the tail of this slot, this task ends where that tail begins.
+                    slot_idx = self.currentSlotIdx if self.currentSlotIdx is not None else 0
+                    booked = self._lastBookedResource
+                    res_scenario = booked.data[self.scenarioIdx] if booked is not None and booked.data else None
+                    self._endOffset = 0.0
+                    if res_scenario:
+                        granularity = self.project.attributes.get("scheduleGranularity", 3600)
+                        for task, secs in res_scenario.slotTaskUsage.get(slot_idx, []):
+                            if task == self.property:
+                                self._endOffset = max(0.0, granularity - secs)
 
             # Accumulate effort (counted once per slot, not per resource)
             self.doneEffort += total_effort_this_slot
